@@ -15,6 +15,7 @@ import NavisModel.Drv.C11
 import NavisModel.Drv.C13
 import NavisModel.Drv.C17
 import NavisModel.Drv.C18
+import NavisModel.Drv.ConnSub
 /-! `navisdrv`: one request per line on stdin (`<prop>.<cmd> <payload>`), one answer per line on stdout. -/
 open Navis
 
@@ -37,6 +38,7 @@ def handle (head rest : String) : Option String :=
   | ["c13", cmd] => Drv.C13.run cmd rest
   | ["c17", cmd] => Drv.C17.run cmd rest
   | ["c18", cmd] => Drv.C18.run cmd rest
+  | ["cs", cmd] => Drv.ConnSub.run cmd rest
   | ["ping"] => some "pong"
   | _ => none
 
